@@ -4,7 +4,9 @@ import random
 
 import common as C
 
-COQ_FILES = ("Base/Bytes.v", "L2_Disc/Accept.v", "L4_Eval/RunSmall.v", "L2_Disc/AcceptProofs.v", "Properties/C14.v")
+COQ_FILES = ("Base/Bytes.v", "L2_Disc/Accept.v", "L4_Eval/RunSmall.v", "L2_Disc/AcceptProofs.v", "L2_Disc/MiniPy.v", "L2_Disc/Visitors.v",
+             "L2_Disc/DiscCheck.v", "L2_Disc/DiscProofs.v", "Properties/C14.v", "Properties/C14b.v")
+PROPERTY_FILES = ("C14", "C14b")
 EXTRACTED = ("ConstAccept",)
 ALLOWED_AXIOMS = ()
 
@@ -77,6 +79,13 @@ def run(rep, tier, seed, proof_ok):
                           {"case": c, "impl": i, "expected": exp})
     rep.extra["input_distribution"] = {"cases": len(cases), "expected_true": sum(1 for c in cases if expected(c["parts"], set(c["accepted"])))}
     rep.sample(cases[0]); rep.sample(cases[200]); rep.sample(cases[-1])
+    # discovery model (L2_Disc/Visitors.v) against the reference derivation of the harness, on generated and stressed programs
+    import progs
+    bad = progs.check_discover(25 if tier == "quick" and proof_ok else 300, seed, verbose=False)
+    rep.extra["discover_mismatches"] = len(bad)
+    rep.case("discover-vs-reference-derivation")
+    for b in bad[:3]:
+        rep.violation("model-mismatch:discover", f"discover and the reference derivation of the analysis view differ: {b}", {"case": list(map(str, b))}, no_input=True)
     try:
         import c14_programs
         c14_programs.run(rep, tier, seed, proof_ok, rng)
